@@ -1042,7 +1042,16 @@ def _val_to_numpy(
         is_chunked = False
 
     if is_chunked:
-        val_list = [chunk.to_numpy() for chunk in arrow.chunks]
+        if arrow.null_count:
+            # nulls force a copy; convert as a whole so that every chunk gets the same dtype
+            whole = pa.concat_arrays(arrow.chunks).to_numpy(zero_copy_only=False)
+            splits = np.cumsum([len(chunk) for chunk in arrow.chunks])[:-1]
+            val_list = np.array_split(whole, splits)
+        else:
+            # zero-copy where possible (bit-packed / string data are copied)
+            val_list = [chunk.to_numpy(zero_copy_only=False) for chunk in arrow.chunks]
+    elif isinstance(val, pa.Array):
+        val_list = [val.to_numpy(zero_copy_only=False)]
     elif hasattr(val, "to_numpy"):
         val_list = [val.to_numpy()]  # type: ignore
     else:
